@@ -51,11 +51,27 @@ CheckRoute(e) ==
          /\ Judge("C06", "RouteOK", e.route = Route(e.op, e.cfg, e.a.serial), e.route, Route(e.op, e.cfg, e.a.serial))
     ELSE TRUE
 
+\* C11: discovery returns exactly the well-formed replies among the delivered datagrams, in order
+CheckDiscovery(e) ==
+  IF e.op = "GetDevices" /\ Has(e, "cfg") /\ Has(e.cfg, "routed") /\ e.ret.t # "panic"
+    THEN Judge("C11", "DiscoveryOK", DiscoveryOK(e.cfg, [i \in 1..Len(e.delivered) |-> e.delivered[i].b], e.ret),
+               e.ret, [i \in 1..Len(e.delivered) |-> DgClass(e.delivered[i].b)])
+    ELSE TRUE
+
+\* C10: a delivered status is the protocol decoding of its datagram and does not change afterwards
+CheckEvent(e) ==
+  LET msg == e.b dec == DecodeFields(Event, msg) IN
+  /\ Judge("C04", "NoPanic", e.status.t # "panic", e.status, "no panic")
+  /\ Judge("C10", "EventDecoded", Len(msg) = 64 /\ (msg[1] = 23 \/ msg[1] = 25) /\ msg[2] = 32 /\ Field(msg, 4, 4) # <<0, 0, 0, 0>>
+                                   /\ StatusOK("GetStatus", dec, e.status), e.status, dec)
+  /\ Judge("C10", "Stable", e.later = e.status, e.later, e.status)
+
 \* calls whose arguments lie beyond what the projection can express (year 20000, HH:mm 100:100, ...)
 \* are judged for totality only
 Check(e) == IF e.op = "W26Intervals" THEN CheckW26(e)
+            ELSE IF e.op = "Event" THEN CheckEvent(e)
             ELSE IF Has(e.a, "extreme") THEN CheckNoPanic(e)
-            ELSE CheckSent(e) /\ CheckReject(e) /\ CheckNoPanic(e) /\ CheckResult(e) /\ CheckRoute(e)
+            ELSE CheckSent(e) /\ CheckReject(e) /\ CheckNoPanic(e) /\ CheckResult(e) /\ CheckRoute(e) /\ CheckDiscovery(e)
 
 TraceNext == l <= Len(Trace) /\ Check(Trace[l]) /\ l' = l + 1
 ========================================================================
